@@ -25,8 +25,15 @@ Definition re_dfa_equivb (r : re) (D : dfa nat) : option bool :=
   if negb (subsetb (re_symbols r) (dS D)) then Some false
   else match re_nfa_over r (dS D) with Some N => nfa_dfa_equivb_f 600 N D | None => None end.
 
+(* edge labels are compared up to the order and grouping of the summands: the sum of the symbols leading from p to q is built in the
+   iteration order of the transition dict, which is not part of the property *)
+Fixpoint summands (r : re) : list re :=
+  match r with Sum a b => summands a ++ summands b | _ => [r] end.
+Definition sum_eqb (r1 r2 : re) : bool :=
+  let l1 := summands r1 in let l2 := summands r2 in
+  forallb (fun x => existsb (re_eqb x) l2) l1 && forallb (fun x => existsb (re_eqb x) l1) l2.
 Definition gdelta_eqb (d1 d2 : list ((nat * nat) * re)) (Q : list nat) : bool :=
-  forallb (fun p => forallb (fun q => re_eqb (gget d1 p q) (gget d2 p q)) Q) Q.
+  forallb (fun p => forallb (fun q => sum_eqb (gget d1 p q) (gget d2 p q)) Q) Q.
 
 (* DFA -> regexp: start/accept codes; the implementation's GNFA edges and regexp *)
 Definition judge_C06_dfa (D : dfa nat) (start accept : nat) (ogn : option (list ((nat * nat) * re))) (ore : option re) : nat :=
